@@ -94,15 +94,93 @@ def run(rep, ctx, tier):
                 "unexpected shape: [%s]%s, expected exactly one %s" % (
                     shown, ("; self escapes into " + escapes[0]) if escapes else "", want_kind.lower()), b.span)
     # evaluate_query_set
-    h = None
-    for x in f.hir.values():
-        if x["name"] == "evaluate_query_set" and not x.get("impl_self_adt"):
-            h = x
-    if h is None:
+    b = None
+    for x in f.bodies.values():
+        if x.kind != "Closure" and x.name == "evaluate_query_set" and not x.self_adt and not x.in_trait:
+            b = x
+    if b is None:
         rep.add("R1", "evaluate_query_set:anchor", False, "evaluate_query_set not found (fail closed)", None)
         return
-    ok, detail = query_set_pairing(h)
-    rep.add("R1", "evaluate_query_set:pairing", ok, detail, h["span"])
+    ok, detail = query_set_pairing_mir(ctx, b)
+    rep.add("R1", "evaluate_query_set:pairing", ok, detail, b.span)
+
+
+CARRY = ("clone", "to_owned", "borrow", "as_ref", "deref", "into", "copied", "cloned", "to_string")
+
+
+def _binding(b, D, local, depth=0):
+    """walk backwards over plain copies / reborrows / clone-like calls to the local that was bound by projecting a
+    field out of something (a pattern binding of the loop item): returns (that local, its field path) or None."""
+    ds = D.get(local, [])
+    if len(ds) != 1 or depth > 20:
+        return None
+    kind, x = ds[0]
+    if kind == "st":
+        rv = x["rv"]
+        src = rv["pl"] if rv["k"] in ("ref", "rawptr") else (
+            rv["ops"][0]["pl"] if rv["k"] in ("use", "cast") and rv.get("ops") and rv["ops"][0]["k"] in ("copy", "move") else None)
+        if src is None:
+            return None
+        fields = tuple(e["f"] for e in src["p"] if isinstance(e, dict) and "f" in e)
+        if fields:
+            return (local, (src["l"],) + fields)
+        return _binding(b, D, src["l"], depth + 1)
+    nm = (x.get("callee") or "").rsplit("::", 1)[-1]
+    if nm in CARRY and x["args"] and x["args"][0]["k"] in ("copy", "move"):
+        src = x["args"][0]["pl"]
+        fields = tuple(e["f"] for e in src["p"] if isinstance(e, dict) and "f" in e)
+        if fields:
+            return (local, (src["l"],) + fields)
+        return _binding(b, D, src["l"], depth + 1)
+    return None
+
+
+def query_set_pairing_mir(ctx, b):
+    """on MIR: the value inserted under the key (label, point) is computed from the item components the key's two
+    parts are copies of."""
+    from ..flow import Graph, DATA, ALIAS
+    f = ctx.facts
+    g = Graph(f, f.closure([b.id], None), [b.id], None)
+    D = {}
+    for blk in b.blocks:
+        if blk["cleanup"]:
+            continue
+        for st in blk["stmts"]:
+            if not st["dst"]["p"]:
+                D.setdefault(st["dst"]["l"], []).append(("st", st))
+        t = blk["term"]
+        if t["k"] == "call" and not t["dst"]["p"]:
+            D.setdefault(t["dst"]["l"], []).append(("call", t))
+    found = 0
+    for i, t in b.calls():
+        nm = (t.get("callee") or "").rsplit("::", 1)[-1]
+        if nm != "insert" or len(t["args"]) != 3 or any(a["k"] not in ("copy", "move") for a in t["args"]):
+            continue
+        kl = t["args"][1]["pl"]["l"]
+        for _ in range(6):      # the key may be moved through temporaries before it is handed over
+            ds = D.get(kl, [])
+            if len(ds) == 1 and ds[0][0] == "st" and ds[0][1]["rv"]["k"] == "use" and ds[0][1]["rv"]["ops"][0]["k"] in ("copy", "move") \
+                    and not ds[0][1]["rv"]["ops"][0]["pl"]["p"]:
+                kl = ds[0][1]["rv"]["ops"][0]["pl"]["l"]
+            else:
+                break
+        kd = g._tuple_def(b, kl)
+        if kd is None or len(kd) != 2 or any(o["k"] not in ("copy", "move") for o in kd):
+            continue          # not a (label, point) key: another table
+        found += 1
+        b0 = _binding(b, D, kd[0]["pl"]["l"])
+        b1 = _binding(b, D, kd[1]["pl"]["l"])
+        if b0 is None or b1 is None or b0[1] == b1[1]:
+            return False, "the key of the stored evaluation at %s is not (one component of the query, another component of it)" % t["span"]
+        v = (b.id, t["args"][2]["pl"]["l"])
+        for which, bn in (("label", b0), ("point", b1)):
+            reached = {s[0] for s in g.reach([(b.id, bn[0])], kinds=(DATA, ALIAS), typed=False)}
+            if v not in reached:
+                return False, ("the value stored at %s does not depend on the %s component of its own key: it is not the "
+                               "evaluation of the polynomial with that label at that point" % (t["span"], which))
+    if not found:
+        return False, "no insert under a (label, point) key found in evaluate_query_set"
+    return True, "the value stored under (label, point) is computed from exactly those two components of the query"
 
 
 def query_set_pairing(h):
